@@ -5,6 +5,7 @@ every reachable state is the state of a sequential execution of the
 operations that have released `confMu`, in release order.
 -/
 import AGH.Model.StatsConc
+set_option linter.unusedSimpArgs false
 namespace AGH.C09
 
 variable {L : Type}
